@@ -1,19 +1,21 @@
 /-
-C12 — known finding F32: a task that HAS begun running is reaped as PendingTimeout; and an
-observed-not-claimed history: the kill marker is lost when the status write fails after the delete.
+C12 — F32, REPAIRED (regression theorems; formerly the witnesses `running_task_reaped_as_pending_witness` and
+`crashed_before_observed_reaped_as_pending_witness`); and an observed-not-claimed history: the kill marker is
+lost when the status write fails after the delete.
 
-F32.  C12: "a task that has not begun running within the pending timeout … is deleted".
-`C12Hist.pending_not_early` proves, for every step of every history, that the reaper only deletes a task
-whose ref — as READ FROM THE LIVE POD in that pass (`task.GetTaskRef()`) — shows neither a running nor a
-finish timestamp, and never before creation + timeout.  That is weaker than the property's sentence:
-`handlePendingTasks` does not consult the ref recorded in `status.tasks`, and `GetContainerStartTime` only
-reads the container's CURRENT state (`State.Running` / `State.Terminated`).  With restartPolicy OnFailure
-(admitted by validation: only Always is refused) a container that failed and waits to be restarted
-(CrashLoopBackOff) is in `State.Waiting`; its start time is only under `LastTerminationState`.  The pod's
-phase stays Running, so the histories below are inside the kubelet contract (`KubeletOK`).  Replayed on
-the real controller by the corpus scenarios `f32-crashloop-task-reaped-as-pending` and
+F32.  C12: "a task that has not begun running within the pending timeout … is deleted".  Before the repair
+`handlePendingTasks` took the running timestamp from the LIVE pod (`task.GetTaskRef()`), not from the ref
+recorded in `status.tasks`, and `GetContainerStartTime` only read the container's CURRENT state
+(`State.Running` / `State.Terminated`).  With restartPolicy OnFailure (admitted by validation: only Always is
+refused) a container that failed and waits to be restarted (CrashLoopBackOff) is in `State.Waiting`; its
+start time is only under `LastTerminationState`, the pod's phase stays Running (inside the kubelet contract
+`KubeletOK`): a task that HAD begun running was reaped as `PendingTimeout`.  Repaired: the step judges a task
+by the ref recorded in the Job's status (`jobutil.FindTaskRef`; `JobCtl.pendRef`), and
+`GetContainerStartTime` also reads `LastTerminationState.Terminated.StartedAt` (`containerStartTime`).  The
+same histories now reap nothing — theorems below; general statement `C12Hist.pending_only_never_ran`.
+Replayed on the real controller by the corpus scenarios `f32-crashloop-task-reaped-as-pending` and
 `f32b-crashloop-before-first-observation` (monitor `pending-only-never-ran`, ground truth: the simulated
-kubelet started a container of the task).
+kubelet started a container of the task), which fail on the tree before the repair.
 -/
 import FurikoModel.Props.SideCommon
 
@@ -42,22 +44,36 @@ def cK1 : Sys := runActs cA crashRun1
 def crashRun2 : List Action := [.kubelet (waitingForRestart (podOf cK1 "job-h-0") (secs 5) (secs 1005)), .deliverPod, .work]
 def cK2 : Sys := runActs cK1 crashRun2
 
-/-- witness (F32): no fault, no lag, no user action.  `status.tasks` records that `job-h-0` began running
-at 5 s; at 1005 s (creation 0 s + 900 s has passed) the pass deletes it and marks it Killed /
-`PendingTimeout` — while the very ref it writes still shows the running timestamp 5 s. -/
-theorem running_task_reaped_as_pending_witness :
+/-- regression (F32, first history; before the repair this pass deleted `job-h-0` and marked it Killed /
+`PendingTimeout`): no fault, no lag, no user action.  `status.tasks` records that `job-h-0` began running at
+5 s; at 1005 s (creation 0 s + 900 s has passed) the pass issues NO call: the task is not reaped, no marker
+is written, the pod carries no deletion timestamp, the ref keeps its running timestamp. -/
+theorem running_task_not_reaped_as_pending :
     Reach lagAndLoss jobC cK2 ∧
     refsView cK1 = [("job-h-0", .running, .none, some (secs 5), none)] ∧
-    callsOf cK2 = [("delete", "pods", "job-h-0", "ok", false), ("update", "jobs", "job", "ok", true)] ∧
+    callsOf cK2 = [] ∧
     refsView cK2 = [("job-h-0", .running, .none, some (secs 5), none)] ∧
-    marksView cK2 = [some (.terminated, .killed, "PendingTimeout")] ∧
-    cK2.pods.map (fun p => (p.pod.name, p.pod.phase, p.pod.deletionTimestamp)) = [("job-h-0", .running, some (secs 1005))] :=
+    marksView cK2 = [none] ∧
+    cK2.pods.map (fun p => (p.pod.name, p.pod.phase, p.pod.deletionTimestamp)) = [("job-h-0", .running, none)] :=
   ⟨reach_run (reach_run (reach_run (.init 0 {} Ex.d (by decide +kernel)) Ex.runA (by decide +kernel)) crashRun1
       (by decide +kernel)) crashRun2 (by decide +kernel),
     by decide +kernel, by decide +kernel, by decide +kernel, by decide +kernel, by decide +kernel⟩
 
+/-- the first hunk of the repair alone: the pod stops reporting ANY container status after the running
+timestamp was recorded (phase Running, no container statuses — nothing for `GetContainerStartTime` to read,
+with or without `LastTerminationState`); the recorded ref decides: nothing is reaped -/
+def crashRun2' : List Action := [.kubelet (withStatus (podOf cK1 "job-h-0") .running (some (secs 5)) []), .deliverPod, .work]
+def cK2' : Sys := runActs cK1 crashRun2'
+
+theorem recorded_running_decides :
+    (cK2'.podCache.map (fun p => containerStartTime p.pod)) = [none] ∧
+    callsOf cK2' = [] ∧
+    refsView cK2' = [("job-h-0", .running, .none, some (secs 5), none)] ∧
+    marksView cK2' = [none] :=
+  ⟨by decide +kernel, by decide +kernel, by decide +kernel, by decide +kernel⟩
+
 /-- second history: the container starts at 5 s and fails at 8 s, BETWEEN two passes: no pass ever sees
-it Running, nothing is recorded; at 1008 s the pending-timeout pass reaps the task -/
+it Running; at 1008 s the pending-timeout pass runs -/
 def crashBRun : List Action :=
   [.deliverPod, .advance (sec 5),
    .kubelet (withStatus (podOf cA "job-h-0") .running (some (secs 5)) [{ running := some (some (secs 5)) }]),
@@ -65,17 +81,19 @@ def crashBRun : List Action :=
    .deliverPod, .deliverPod, .work, .deliverJob, .advance (sec 1000), .work]
 def cK3 : Sys := runActs cA crashBRun
 
-/-- witness (F32, second history): the kubelet started the task's container at 5 s (the second action
-of `crashBRun` after the delivery), yet no running timestamp is ever recorded and the task is reaped as
-`PendingTimeout`; using the recorded ref in `handlePendingTasks` alone would not prevent this one
-(`GetContainerStartTime` has to read `LastTerminationState` too). -/
-theorem crashed_before_observed_reaped_as_pending_witness :
+/-- regression (F32, second history; before the repair the pass at 1008 s reaped the task and no running
+timestamp was ever recorded): the kubelet started the task's container at 5 s (the second action of
+`crashBRun` after the delivery) and it failed at 8 s, between two passes.  The first pass after that reads the
+start from `LastTerminationState` and RECORDS the running timestamp 5 s; the pass at 1008 s issues no call.
+Using the recorded ref in `handlePendingTasks` alone would not have prevented this one. -/
+theorem crashed_before_observed_not_reaped :
     Reach lagAndLoss jobC cK3 ∧
-    callsOf cK3 = [("delete", "pods", "job-h-0", "ok", false), ("update", "jobs", "job", "ok", true)] ∧
-    refsView cK3 = [("job-h-0", .running, .none, none, none)] ∧
-    marksView cK3 = [some (.terminated, .killed, "PendingTimeout")] :=
+    callsOf cK3 = [] ∧
+    refsView cK3 = [("job-h-0", .running, .none, some (secs 5), none)] ∧
+    marksView cK3 = [none] ∧
+    cK3.pods.map (fun p => (p.pod.name, p.pod.phase, p.pod.deletionTimestamp)) = [("job-h-0", .running, none)] :=
   ⟨reach_run (reach_run (.init 0 {} Ex.d (by decide +kernel)) Ex.runA (by decide +kernel)) crashBRun (by decide +kernel),
-    by decide +kernel, by decide +kernel, by decide +kernel⟩
+    by decide +kernel, by decide +kernel, by decide +kernel, by decide +kernel⟩
 
 /-! ### observed, not claimed: the kill marker is lost when the status write fails after the delete
 
